@@ -1,6 +1,7 @@
 package props
 
 import (
+	"fmt"
 	"os"
 
 	"github.com/zerx-lab/wordZero/pkg/document"
@@ -121,4 +122,51 @@ func interleave(r *sim.Rand, lists ...[]sim.Op) []sim.Op {
 		out = append(out, lists[k][idx[k]])
 		idx[k]++
 	}
+}
+
+// templateScenario: a base document (slot 0) with placeholders is loaded once
+// as a template and rendered two or three times (slots 1..); the rendered
+// documents are then extended independently - above all with things that
+// append to tables the clone may share with the template or with each other
+// (content types, relationships, parts) - and saved only afterwards, the first
+// one last.
+func templateScenario(r *sim.Rand, g *world.Gen) []sim.Op {
+	var ops []sim.Op
+	ops = append(ops, g.DocOps(0, r.Range(1, 8))...)
+	ops = append(ops, sim.Op{K: "para", S: []sim.Str{"Dear {{name}}, welcome to {{city}}"}})
+	if r.Bool() {
+		ops = append(ops, sim.Op{K: "para", S: []sim.Str{"{{#image pic}}"}})
+	}
+	// vary how many relationships / content-type defaults the template has (spare capacity of its slices)
+	for i := r.Intn(4); i > 0; i-- {
+		kind := []string{"default", "first", "even"}[i%3]
+		ops = append(ops, sim.Op{K: r.Pick("hdr", "ftr"), S: []sim.Str{sim.Str(kind), "H {{title}}"}})
+	}
+	if r.Bool() {
+		ops = append(ops, sim.Op{K: "img", I: []int{0, 6, 6, 4242, 0, 0, 0, 0}, S: []sim.Str{"base.png", "a", "t"}, F: []float64{0, 0, 0, 0}})
+	}
+	n := r.Range(2, 3)
+	for d := 1; d <= n; d++ {
+		data := &world.TData{Vars: map[string]any{"name": fmt.Sprintf("N%d", d), "city": "C", "title": "T"}, Images: map[string][]int{"pic": {r.Intn(3), 5, 5, 7000 + d}}}
+		ops = append(ops, sim.Op{K: "tpl.render", D: d, I: []int{0, 1, 0}, S: []sim.Str{sim.Str(data.JSON())}})
+	}
+	var lists [][]sim.Op
+	for d := 1; d <= n; d++ {
+		g2 := world.NewGen(r.Fork())
+		g2.Alpha = []int{0}
+		g2.Fam = world.FImage | world.FHF | world.FBody
+		if r.Bool() {
+			g2.Fam |= world.FNote | world.FList
+		}
+		g2.RectTablesOnly, g2.WellFormedMath = true, true
+		dops := g2.DocOps(d, r.Range(1, 6))
+		// images of a format the template has not registered yet
+		dops = append(dops, sim.Op{K: "img", D: d, I: []int{d % 3, 6, 6, 9000 + d, 0, 0, 0, 0}, S: []sim.Str{sim.Str("late" + []string{".png", ".jpeg", ".gif"}[d%3]), "a", "t"}, F: []float64{0, 0, 0, 0}})
+		lists = append(lists, dops)
+	}
+	ops = append(ops, interleave(r, lists...)...)
+	for d := n; d >= 1; d-- {
+		ops = append(ops, sim.Op{K: "save", D: d, I: []int{r.Intn(2)}})
+	}
+	return ops
 }
